@@ -155,6 +155,9 @@ def run(pid, tier, seed):
         # to them (PEP 604 / 585 spellings need no typing import, the traced spelling does): every name used is provided
         from .. import keptmix
         keptmix.run(chk, pd, seed, "names-provided-kept-and-traced")
+        # ... and annotations kept from the source that mention classes of another module inside PEP 585 / 604 forms
+        from . import c13 as _c13
+        _c13.kept_text(chk, pd, seed)
         gen = Gen(tbl, chk.rng, mods)
         target = mods["target"]
         own = {"Own": target.Own, "K": target.K}
